@@ -26,7 +26,8 @@ routers.py are the model's. -/
 theorem tables_agree :
     Gen.actionPassThrough = passThroughTypes ∧
     Gen.actionTypes.filter (fun t => !Gen.actionPassThrough.contains t) = specialTypes ∧
-    Gen.routerTests = routerTests ∧ Gen.routerNoArgTests = noArgTests := by decide
+    Gen.routerTests = routerTests ∧ Gen.routerNoArgTests = noArgTests ∧
+    Gen.contactFieldTypeBug = fieldTypeBug := by decide
 
 /-! ### the round trip is lossless -/
 
